@@ -170,20 +170,11 @@ class FeatureIDEReader(TextToModel):
             node.right.left = self._parse_rule(rule[1]).root
             node.right.right = self._parse_rule(rule[0]).root
 
-        elif rule.tag == FeatureIDEReader.TAG_DISJ:
-            if len(rule) > 1:
-                node = Node(ASTOperation.OR)
-                node.left = self._parse_rule(rule[0]).root
-                node.right = self._parse_rule(rule[1]).root
-
-            else:
-                node = self._parse_rule(rule[0]).root
-
-        elif rule.tag == FeatureIDEReader.TAG_CONJ:
-            if len(rule) > 1:
-                node = Node(ASTOperation.AND)
-                node.left = self._parse_rule(rule[0]).root
-                node.right = self._parse_rule(rule[1]).root
-            else:
-                node = self._parse_rule(rule[0]).root
+        elif rule.tag in (FeatureIDEReader.TAG_DISJ, FeatureIDEReader.TAG_CONJ):
+            # n-ary rule: fold all the operands
+            operation = (ASTOperation.OR if rule.tag == FeatureIDEReader.TAG_DISJ
+                         else ASTOperation.AND)
+            node = self._parse_rule(rule[0]).root
+            for operand in rule[1:]:
+                node = Node(operation, node, self._parse_rule(operand).root)
         return AST(node)
